@@ -308,8 +308,9 @@ pub fn run(ctx: &Ctx) -> Rep {
     let mut rep = Rep::new();
     let seed = ctx.seed;
     let alpha = alphabet();
-    let ws = all_white_space();
-    rep.self_check("model: 19 rank symbols and 16 suit symbols over all scalar values", {
+    // (the two full scans of the scalar space are skipped in the smoke tier, where the interpreter makes them expensive)
+    let ws = if ctx.smoke() { SEPARATORS.to_vec() } else { all_white_space() };
+    rep.self_check("model: 19 rank symbols and 16 suit symbols over all scalar values", ctx.smoke() || {
         let mut r = 0;
         let mut s = 0;
         for c in (0..=0x10FFFFu32).filter_map(char::from_u32) {
@@ -347,7 +348,7 @@ pub fn run(ctx: &Ctx) -> Rep {
 
     // ---- (2) all pairs over the alphabet x tails, as whole texts ---------------------------
     let kb = "k".repeat(1024);
-    let tails: Vec<String> = vec!["".into(), "x".into(), "♠".into(), "\u{FE0F}".into(), kb, " Ah".into()];
+    let tails: Vec<String> = if ctx.smoke() { vec!["".into(), " Ah".into()] } else { vec!["".into(), "x".into(), "♠".into(), "\u{FE0F}".into(), kb, " Ah".into()] };
     let s2 = par_run(ctx, alpha.len(), mk, |st, ai| {
         if ctx.smoke() && ai % 9 != 0 {
             return;
